@@ -412,6 +412,22 @@ func TestCheck(t *testing.T) {
 		})
 	})
 
+	r.Phase("F: texts judged while a custom package-level Formatter (decimal digits) is installed", func() {
+		old := roman.Formatter
+		defer func() { roman.Formatter = old }()
+		roman.Formatter = func(buf []byte, n roman.Number, f roman.Format) ([]byte, error) {
+			return strconv.AppendUint(buf, uint64(n), 10), nil
+		}
+		r.Serial(func(w *vkit.W) {
+			for _, text := range []string{"", "I", "iv", "MCMXCIV", "mdclxvi", "IIII", "IIX", "VX", "1994", "MMXXIV ", "DCCCCLXXXXVIIII", "x"} {
+				for _, rule := range rules {
+					judge(Case{Text: vkit.B(text), Rule: rule}, w)
+					w.EvalRandom(vkit.Hash64("F", text, strconv.Itoa(rule)), true)
+				}
+			}
+		})
+	})
+
 	// Phase W: texts that programs conventionally treat specially ("null", "nil", "", "0", "N", ...) through every entry point.
 	r.Phase(fmt.Sprintf("W: %d conventional special texts (null, nil, none, 0, nulla, ...) x rules x limits through every entry point", len(ref.ConventionalTexts)), func() {
 		for _, lim := range []int{0, -1, 4} {
